@@ -160,13 +160,20 @@ def mprocess_case(draw, shape_names=("1q", "qutrit", "2q"), m_range=(2, 4), max_
     m = draw(st.integers(*m_range))
     counts = draw(st.lists(st.integers(1, max_per), min_size=m, max_size=m))
     r = sum(counts)
-    return {
+    case = {
         "type": "mprocess",
         "shape": shape,
         "m": m,
         "counts": counts,
         "raw": draw(raw(2 * d * r * d)),
     }
+    # explicit outcome layout of the MProcess object (None = the constructor's default flat layout): padded with 1-axes or
+    # a two-axis factorisation of m; used by the checks that pass mshape= to build.make
+    layouts = [None, None, (m,), (1, m), (m, 1)] + [(a, m // a) for a in range(2, m) if m % a == 0]
+    lay = draw(st.sampled_from(layouts))
+    if lay is not None:
+        case["mshape"] = list(lay)
+    return case
 
 
 def mprocess_kraus(case):
